@@ -7,7 +7,7 @@ PROP = dict(
     id="C07",
     corr=["Model/FsmCorr.vo", "Model/C07Corr.vo", "Model/C07Table.vo", "Model/C20Corr.vo", "Model/C07Watch.vo", "Model/C07Lwk.vo"],
     design_ref="DESIGN.md §6 C07",
-    technique="Coq: invariant over all crash histories of the maker state machines, carried by a generic engine rule indexed by an accumulator folded over the effects (what the wallet has broadcast, whether a durable write followed, whether a spend was broadcast); tree-aware rule for action trees; reflective boolean checks on the generated state tables proved sound for arbitrary tables and decided by vm_compute; step-level vm_compute correspondence against the real SwapService/FSM incl. simulated process crashes at a chosen effect (real bbolt file reopened, RecoverSwaps); monitor on observed scenarios",
+    technique="Coq: invariant over all crash histories of the maker state machines, carried by a generic engine rule indexed by an accumulator folded over the effects (what the wallet has broadcast, whether a durable write followed, whether a spend was broadcast); tree-aware rule for action trees; reflective boolean checks on the generated state tables proved sound for arbitrary tables and decided by vm_compute; step-level vm_compute correspondence against the real SwapService/FSM incl. simulated process crashes at a chosen effect (real bbolt file reopened, RecoverSwaps); monitor on observed scenarios; plus, on the real code: the RPC watcher's CSV watch list (kept until the notification was accepted) and the LWK wallet adapter over a fake lwk server / electrum (known finding: error after broadcast)",
     level_text="Machine-checked for both maker tables generated from the code (and for any table passing the check), every history with crashes after any effect and restarts, every environment and peer behaviour: once the wallet has broadcast opening transaction o, the last durable record and every later store write name o (txid, announced vout, tx hex); that record is in a finished state only if the claim-paid notification was delivered or a spending transaction was broadcast; OnCsvPassed in every waiting state broadcasts the CSV refund; every waiting state's action (entry and recovery) registers the CSV watch on the recorded (txid, vout). The full statement is refuted by one known pattern (crash or failed store write between the wallet broadcast and the next durable write, D7): Findings/F_C07_2.v; it is excluded by the visible hypothesis no_orphan and reproduced on the real code every run. D6 (error after the wallet broadcast cancels with no record) was repaired in the repo; Findings/F_C07_1.v keeps the pre-fix witness.",
     level_note="Trusted: Coq kernel; hand-written Gallina model of swap/actions.go and swap/fsm.go (tied by step-level correspondence on generated scenarios incl. crashed steps: the first k effects of the model equal the k effects observed before the simulated crash, and the machine RecoverSwaps loads equals the model's last durable record); fakes for wallet/watcher/Lightning (the wallet reports the vout it announces; onchain/liquid.go returning vout 0 (D5) and the LWK raw-tx fetch after broadcast are below the wallet interface and not covered here); the temporal composition of the CSV theorems (c1-c3) over a history is not a theorem; retry exhaustion (21 failed refund broadcasts leave the swap in the claim state until restart) is modelled but not exercised on the real code (back-off sleeps).",
     assumptions=[
